@@ -1,6 +1,6 @@
 (* C13 — case type and the two boolean functions evaluated on generated cases. *)
 From Coq Require Import List Bool ZArith QArith String Ascii.
-From V Require Import C13.Tokenizer C13.TokProofs C13.Mechanisms.
+From V Require Import C13.Tokenizer C13.TokProofs C13.Mechanisms C13.Lines.
 Import ListNotations.
 
 Fixpoint list_eqb {A} (f : A -> A -> bool) (a b : list A) : bool :=
@@ -17,7 +17,10 @@ Inductive case :=
           (impl : option (string * iorder * string))                     (* key, order, atomname; None: IOError *)
 | CWeights (lines : list mline) (impl : option (list (Z * list (Z * Q))))    (* particle -> [(atom, weight)]; None: IOError *)
 | CSections (es : list event)                                            (* a file built from these events was loaded *)
-            (impl_blocks impl_links impl_mods : list (nat * list nat)).  (* per loaded context: header index, its lines *)
+            (impl_blocks impl_links impl_mods : list (nat * list nat))   (* per loaded context: header index, its lines *)
+| CLine (names : list string) (natoms : option nat) (delete : bool) (tokens : list string)   (* _base_parser on a block with these atoms *)
+        (impl : option (list string * list string * option string))     (* atoms, parameters, meta token; None: rejected *)
+| CAtomLines (lines : list (list string)) (impl : option (list string)).  (* _parse_block_atom line by line; the atom names of the block *)
 
 Definition order_of_iorder (o : iorder) : option order :=
   match o with
@@ -43,8 +46,32 @@ Definition ctxs_eqb (a b : list (nat * list nat)) : bool :=
 Definition sections_agree (cs : list ctx) (ib il im : list (nat * list nat)) : bool :=
   ctxs_eqb (of_kind KBlock cs) ib && ctxs_eqb (of_kind KLink cs) il && ctxs_eqb (of_kind KMod cs) im.
 
+Definition strs_eqb (a : list txt) (b : list string) : bool := list_eqb txt_eqb a (map s2l b).
+
+(* what a written reference of a block means, read from the documentation: a 1-based index of a declared atom, or the
+   name of a declared atom *)
+Definition spec_ref (names : list txt) (r : txt) : option txt :=
+  if is_digits r then
+    match num_of r with 0%N => None | n => nth_error names (N.to_nat (N.pred n)) end
+  else if in_names r names then Some r else None.
+
+Fixpoint distinct (l : list txt) : bool := match l with [] => true | x :: r => negb (in_names x r) && distinct r end.
+
 Definition corr (k : case) : bool :=
   match k with
+  | CLine names natoms delete tokens impl =>
+      match base_parse_block (map s2l names) natoms delete (map s2l tokens), impl with
+      | inr i, Some (atoms, params, meta) =>
+          strs_eqb (i_atoms i) atoms && strs_eqb (i_params i) params && opt_eqb txt_eqb (i_meta i) (option_map s2l meta)
+      | inl _, None => true
+      | _, _ => false
+      end
+  | CAtomLines lines impl =>
+      match block_atoms [] (map (map s2l) lines), impl with
+      | inr names, Some got => strs_eqb names got
+      | inl _, None => true
+      | _, _ => false
+      end
   | CSections es ib il im => sections_agree (run_events es) ib il im
   | CTok line impl => opt_eqb (list_eqb txt_eqb) (tokenize (s2l line)) (option_map (map s2l) impl)
   | CMacro ms line impl =>
@@ -91,6 +118,22 @@ Definition prop (k : case) : bool :=
                                             else Qeq_bool q (Z.of_nat (count (snd t) (plain_targets m)) # Pos.of_nat (List.length (plain_targets m)))
                            | None => false end
          | None => false end) (m_to m)) lines
+  | CLine names natoms delete tokens (Some (atoms, params, meta)) =>
+      (* an accepted interaction line of a block: never a removal; a fixed-size interaction has its number of atoms;
+         every atom is what the written reference means (a declared name, or the 1-based index of a declared atom) *)
+      negb delete
+      && match natoms with Some k => Nat.eqb (List.length atoms) k | None => true end
+      && match get_atoms natoms 0 (map s2l tokens) with
+         | inr (written, _) => list_eqb (opt_eqb txt_eqb) (map (fun a => spec_ref (map s2l names) (fst a)) written)
+                                                          (map (fun a => Some (s2l a)) atoms)
+         | inl _ => false
+         end
+  | CAtomLines lines (Some got) =>
+      (* the atoms of the block: the fifth column of every line, in file order, no name twice *)
+      distinct (map s2l got)
+      && list_eqb (opt_eqb txt_eqb) (map (fun l => nth_error (match List.rev l with m :: r => if is_attr m then List.rev r else l | [] => l end) 4)
+                                         (map (map s2l) lines))
+                  (map (fun n => Some (s2l n)) got)
   | CPrefix ref ao an (Some (key, io, nm)) =>
       (* an accepted reference: the order it ends up with is the explicit one if given, else the one its prefix means;
          a prefix next to an explicit order must mean the same order (a contradiction is never accepted) *)
